@@ -42,6 +42,7 @@ ConfigsQuick == {Cfg(Reqs, "driver", Dec), Cfg(Reqs, "model", Nine),
                  Cfg({"problem", "nl:s1", "sys:s2"}, "driver", Plain),
                  Cfg({"driver", "sys:", "sys:s1", "sys:s2"}, "driver", Dec),
                  Cfg({"nl:", "nl:s1"}, "model", Dec)}
+ConfigsRefute == {Cfg({"driver", "sys:s1", "nl:s1"}, "driver", Dec), Cfg({"nl:", "nl:s1"}, "model", Dec)}
 ConfigsAll == {Cfg(a, "driver", Dec) : a \in SUBSET Reqs \ {{}}}
               \cup {Cfg(a, "model", n) : a \in {Reqs, {"sys:", "nl:s1"}, {"nl:", "sys:s1", "problem"}}, n \in {Plain, Dec, Nine}}
               \cup {Cfg(a, "driver", n) : a \in {Reqs, {"driver", "sys:s1"}, {"driver", "nl:s1", "sys:s2"}}, n \in {Plain, Nine}}
